@@ -70,7 +70,20 @@ def run(case, tag):
     COUNT['init'] = 0
     out = []
     block = None                       # a symbolic block kept open from 'query_in_block' to the 'symbolic_in_block' that follows it
-    for op in case['ops']:
+    # ['query', c, conditioned, 'early']: the variable is DECLARED (and the query built) at the last point before the query at which
+    # the registry was empty - the start of the history or right after the latest clear - and evaluated where the op stands
+    ops = case['ops']
+    pending, declared = {}, {}
+    for j, op in enumerate(ops):
+        if op[0] == 'query' and len(op) > 3 and op[3] == 'early':
+            pending.setdefault(max([i for i in range(j) if ops[i][0] == 'clear'], default=-1), []).append(j)
+
+    def declare_at(p):
+        for j in pending.get(p, []):
+            with symbolic_mode():
+                declared[j] = an(entity(*declare(classes[ops[j][1]], ops[j][2])))
+    declare_at(-1)
+    for pos, op in enumerate(case['ops']):
         k = op[0]
         res = []
         if block is not None and k != 'symbolic_in_block':          # (a shrunk history: the block is closed by whatever follows)
@@ -128,6 +141,7 @@ def run(case, tag):
         elif k == 'clear':
             clear_registry()
             log_visible_from[0] = len(log)
+            declare_at(pos)
         elif k == 'qtake':
             # an abandoned no-domain query: k results, then the iterator is closed (or `the` raising on the second result)
             K = classes[op[1]]
@@ -160,8 +174,11 @@ def run(case, tag):
                 res = [idx.get(id(o), 'u') for o in found]
         elif k == 'query':
             K = classes[op[1]]
-            with symbolic_mode():
-                q = an(entity(*declare(K, len(op) > 2 and op[2])))
+            if pos in declared:
+                q = declared[pos]
+            else:
+                with symbolic_mode():
+                    q = an(entity(*declare(K, len(op) > 2 and op[2])))
             found = list(q.evaluate())
             idx = {id(o): i for i, o in enumerate(log)}
             res = [idx.get(id(o), 'u') for o in found]
